@@ -35,7 +35,8 @@ def scenarios(tier: str, seed: int) -> list[dict]:
     rich = tier == "thorough"
     rng = random.Random(seed * 7919 + (1 if rich else 0))
     scs = qos_gen.single_caller_grid(rich) + qos_gen.queue_order_scenarios(rich) + qos_gen.repeat_scenarios(rich) \
-        + qos_gen.foreign_null_scenarios(rich) + qos_gen.twin_scenarios(rich) + qos_gen.streak_scenarios(rich)
+        + qos_gen.foreign_null_scenarios(rich) + qos_gen.twin_scenarios(rich) + qos_gen.streak_scenarios(rich) \
+        + qos_gen.cause_scenarios(rich)
     n_rand = 16000 if rich else 2500
     for k in range(n_rand):
         scs.append(qos_gen.random_scenario(rng, 1 + (k % 4), rich=True))
